@@ -116,6 +116,21 @@ CHECKS['C06'] = dict(
     technique='Coq proof (prefix sums, list induction) + differential correspondence + HTTP enumeration + independent box walker',
     design='C02-C09')
 
+CHECKS['C14'] = dict(
+    text='Theorems (unbounded): C14_segment_events (create_emsg_boxes for a segment [a,b) emits exactly the scheduled events '
+         'start+k*interval in it, k < count, in order, for every schedule with interval >= 1), C14_events_exact, C14_exactly_once '
+         '(over any run of consecutive segments the boxes are the schedule restricted to the run, no duplicates), C14_time_field, '
+         'C14_manifest (out-of-band listing = first count points), C14_crc (every section followed by its CRC-32/MPEG-2 checks to 0), '
+         'C14_scte35_roundtrip (parse(encode(s)) = s with a valid CRC for every modelled signal whose fields fit their bit widths). '
+         'Models transcribe repeating_event_base.py, the SCTE-35 encoders/parsers and a bit-serial CRC; tied to /repo by differential '
+         'runs of PingPongEvents/Scte35Events, BinarySignal.encode/parse and crccheck.',
+    note=TB + 'bitstring and crccheck are libraries compared against, not proved about; SCTE-35 shapes outside the model '
+         '(splice_schedule, component lists, DTMF/audio descriptors, encrypted packets) are not covered; the tiling premise '
+         '(consecutive segments) comes from C02_gapless inside a loop.',
+    technique='Coq proof (loop invariant over the event loop, range concatenation, LFSR self-feeding argument, bit-field read/write '
+              'round trip) + differential correspondence',
+    design='C14')
+
 NOT_YET = {
 }
 
